@@ -133,6 +133,15 @@ def predicates(src, rect, want):
         P.add('result_invalid')
     if end_ln != ln:
         P.add('rect_multiline')
+    # the text that the request REMOVES: taking a quote, '#' or backslash away re-tokenizes what follows just as inserting
+    # one does (a comment becomes part of a string, ...): same families as text_has_quote / _comment / _backslash
+    old = lines[ln][col:end_col] if ln == end_ln else '\n'.join([lines[ln][col:]] + lines[ln + 1:end_ln] + [lines[end_ln][:end_col]]) if end_ln < len(lines) else ''
+    if '"' in old or "'" in old:
+        P.add('text_has_quote')
+    if '#' in old:
+        P.add('text_has_comment')
+    if '\\' in old:
+        P.add('text_has_backslash')
     return P
 
 
